@@ -56,7 +56,10 @@ def configs(tier):
                            fn=fn, form=form, n1=n1, n2=n2, n3=n3, fork=("spike_pro" in fn or "spike_dist" in fn),
                            cost=8 ** (n1 + abs(n2) + (n3 or 0)), validate=3,
                            split_forks=(8 if n1 + abs(n2) + (n3 or 0) >= 4 else None))
-                if (n1, n2, n3) in ((2, 1, None), (2, 1, 1)) and not ("spike_pro" in fn or "spike_dist" in fn):
+                if (n1, n2, n3) in ((2, 1, None), (2, 1, 1)) and (fn, form) in (
+                        ("isi_distance_matrix", "list"), ("spike_sync_matrix", "list"), ("isi_distance", "list"),
+                        ("spike_sync", "list"), ("spike_train_order", "list"), ("spike_directionality_matrix", "list"),
+                        ("isi_profile", "bi"), ("spike_sync_profile", "bi")) and (tier != "quick" or n3 is None):
                     # the automatic threshold must be computed from the reconciled trains
                     yield dict(name="measure-auto-%s-%s-%s-%d+%s+%s" % (be, fn, form, n1, n2, n3), what="measure",
                                backend=be, fn=fn, form=form, n1=n1, n2=n2, n3=n3, auto=True,
